@@ -77,6 +77,9 @@ def arrangements(d, name, T1, T2, full):
         ("store-absolute,no-id", None, absdoc + "#" + enc([name]), "#" + p2, defs, {absdoc: {name: T1}}),
         ("store-doc-with-own-id", ROOT, "other.json#" + enc(["x", name]), "#" + p2, defs,
          {other: {idk: other, "x": {name: T1}}}),
+        ("store-key-with-hash", ROOT, "other.json#" + enc(["x", name]), "#" + p2, defs, {other + "#": {"x": {name: T1}}}),
+        ("store-key-upper-case-scheme", ROOT, "other.json#" + enc(["x", name]), "#" + p2, defs,
+         {"HTTP" + other[4:]: {"x": {name: T1}}}),
         ("store-doc-refers-back", ROOT, "other.json#" + enc(["y"]), "#" + p2, defs,
          {other: {"y": {"$ref": "root.json#" + p1}}}),
         ("store-doc-local-ref", ROOT, "other.json#" + enc(["y"]), "#" + p2, defs,
@@ -121,7 +124,10 @@ def observe(d, S, docs, x, split=None):
         (served if (split and i % 2 == 0) else store)[k] = copy.deepcopy(v)
 
     def handler(uri):
-        return copy.deepcopy(served[uri])
+        for k, v in served.items():
+            if model.dockey(k) == model.dockey(uri):
+                return copy.deepcopy(v)
+        raise KeyError(uri)
     r = RefResolver.from_schema(S, id_of=cls.ID_OF, store=store, handlers={"http": handler})
     v = cls(S, resolver=r)
     try:
